@@ -1,3 +1,3 @@
 //! Shared machinery for the model-checking checks of rpki-rs.
 pub mod engine;
-pub use engine::report::{Ctx, Space, Tier, guard, watched, note_case, hex, unhex, trunc};
+pub use engine::report::{Ctx, Space, Tier, guard, watched, WatchScope, note_case, hex, unhex, trunc};
